@@ -1262,7 +1262,7 @@ class Evaluator:
             if attr in ("extend", "update", "intersection", "union", "difference", "issubset", "issuperset", "join"):
                 args = [list(a.abs_iter()) if hasattr(a, "abs_iter") else a for a in args]
             table = {
-                list: ("append", "extend", "clear", "copy", "pop", "index", "count", "insert"),
+                list: ("append", "extend", "clear", "copy", "pop", "index", "count", "insert", "reverse", "remove", "sort"),
                 set: ("add", "update", "clear", "copy", "intersection", "union", "difference", "discard", "remove"),
                 dict: ("get", "items", "keys", "values", "clear", "copy", "pop", "update"),
                 str: ("split", "strip", "replace", "startswith", "endswith", "lower", "upper", "isdigit", "find",
